@@ -43,9 +43,6 @@ func TestVerifC08b(t *testing.T) {
 	}
 	perm(nil, []string{"K", "M1", "A"})
 	perm(nil, []string{"K", "M1", "M2", "A"})
-	if vrep.Thorough() {
-		perm(nil, []string{"K", "M2", "M1", "A", "reopen"})
-	}
 	for oi, order := range orders {
 		// M2 before M1 is not a causal arrival order for a log: skip those
 		i1, i2 := -1, -1
